@@ -3,6 +3,7 @@
 
   * `VP9Pay`, `vp9Payload`   VP9Payloader.Payload (flexible and non-flexible) with the picture-id
                              state; `init` is the value returned by `InitialPictureIDFn`
+  * `vp9PayloadF`            the same with the exported field `FlexibleMode` set per call
   * `VP9Packet`, `vp9Unmarshal`  VP9Packet.Unmarshal as a state transformer (every assignment in
                              order, so the state left by an error return is the Go receiver's)
   * `vp9IsPartitionHead`
@@ -73,6 +74,12 @@ def vp9Payload (st : VP9Pay) (mtu : UInt16) (payload : Option Bytes) : List Byte
                else vp9PayloadNonFlexible st.pictureID mtu.toNat p
   let next := st.pictureID + 1
   (frags, { st with pictureID := if next ≥ 0x8000 then 0 else next })
+
+/-- `FlexibleMode` is an exported field of VP9Payloader: a caller may set it by hand before ANY
+    call.  One Payload call with the field set to `flex` first: the mode of the call is the flag's
+    value at the call, the picture-id state is untouched by the assignment. -/
+def vp9PayloadF (st : VP9Pay) (flex : Bool) (mtu : UInt16) (payload : Option Bytes) : List Bytes × VP9Pay :=
+  vp9Payload { st with flexible := flex } mtu payload
 
 def vp9PayloadHist (st : VP9Pay) : List (UInt16 × Option Bytes) → List (List Bytes)
   | [] => []
